@@ -394,6 +394,35 @@ func init() {
 		}
 		w.P("/-- http3/stream.go ReadResponse treats errHeaderTooLarge separately -/")
 		w.P("def cliTooLargeSpecial : Bool := %v", ctl != "")
+		w.P("")
+
+		// --- defaultUserAgent (request_writer.go emits it when the request has no User-Agent header)
+		clf, err := parseOne(c, "http3/client.go")
+		if err != nil {
+			return err
+		}
+		ua, uaFound := "", false
+		for _, d := range clf.Decls {
+			gd, ok := d.(*ast.GenDecl)
+			if !ok || gd.Tok != token.CONST {
+				continue
+			}
+			for _, sp := range gd.Specs {
+				vs := sp.(*ast.ValueSpec)
+				for i, n := range vs.Names {
+					if n.Name == "defaultUserAgent" && i < len(vs.Values) {
+						if sv, ok := strLit(vs.Values[i]); ok {
+							ua, uaFound = sv, true
+						}
+					}
+				}
+			}
+		}
+		if !uaFound {
+			return fmt.Errorf("const defaultUserAgent (string literal) not found in http3/client.go")
+		}
+		w.P("/-- http3/client.go `defaultUserAgent` = %q -/", ua)
+		w.P("def defaultUserAgent : List Nat := %s", leanBytes(ua))
 		return nil
 	})
 }
